@@ -36,3 +36,17 @@ Theorem C08_order : forall o c o' c',
   akey_lt KCollation (AC o c) (AC o' c') <-> lex_lt c c'.
 Proof. exact collation_order. Qed.
 Print Assumptions C08_order.
+
+(* the regenerated collation tree END TO END (Proofs/TranslateRunAllFacts.v): the collator is a function col (the sort
+   key of the model's key AC o c is c = col o); Insert / Delete are the regenerated heap-passing methods, Search and the
+   queries the regenerated methods of Gen/TreeGen.v / Gen/ApiGen.v on the tree the heap holds.  On every history_ok
+   history (which supplies that col tells the inserted strings apart and that no sort key is a prefix of another; it
+   excludes Range) the outputs are those of the reference map, keys read as the original strings (forget_col) *)
+From GoArt Require Import Spec.Ideal Proofs.PoolTreeFacts Model.GoHeap Proofs.TranslateMutFacts Proofs.TranslateApiFacts
+  Proofs.TranslateRunFacts Proofs.TranslateRunAllFacts.
+Theorem C08_regenerated_run_refines : forall col evs,
+  Forall (col_op col) (map fst evs) -> history_ok KCollation (map fst evs) = true -> short_keys2 KCollation (map fst evs) ->
+  g_collation_run col evs g_init = map (out_keymap forget_col) (snd (Api.run KCollation Api.init (map fst evs))) /\
+  g_collation_run col evs g_init = map (out_keymap forget_col) (snd (ideal_run KCollation [] (map fst evs))).
+Proof. exact gen_collation_run_refines. Qed.
+Print Assumptions C08_regenerated_run_refines.
